@@ -112,7 +112,7 @@ def variable(draw, name, family, max_groups=5, max_values=3):
 def omen_models(draw, max_ngram=3, alpha_max=3):
     """Small OMEN model in the loader's format (every IP / CP n-gram listed once)."""
     ngram = draw(st.integers(2, max_ngram))
-    alpha = draw(st.lists(st.sampled_from(list('abcdé1я%')), min_size=2, max_size=alpha_max, unique=True))
+    alpha = draw(st.lists(st.sampled_from(list('abcdé1я%AB')), min_size=2, max_size=alpha_max, unique=True))
     ctx_len = ngram - 1
     import itertools
     ctxs = [''.join(t) for t in itertools.product(alpha, repeat=ctx_len)]
